@@ -120,6 +120,39 @@ pub fn c06(o: &Opts) -> Outcome {
             if let Some(w) = check_file(&path, &recs, if fq { "fq-gz with empty members" } else { "fa-gz with empty members" }) { return Outcome { cases, witness: Some(w) }; }
         }
     }
+    // inputs without any record: a zero-byte file, a gzip file with an empty payload, a file holding one newline
+    for (name, bytes) in [("empty.fa", Vec::new()), ("empty.fq", Vec::new()), ("empty.fa.gz", gz(b"")), ("empty.fastq.gz", gz(b""))] {
+        let sc = Scratch::new("reader");
+        let path = sc.path(name);
+        std::fs::write(&path, bytes).unwrap();
+        cases += 1;
+        let none: Vec<(String, Vec<u8>)> = Vec::new();
+        if let Some(w) = check_file(&path, &none, &format!("{} (no records)", name)) { return Outcome { cases, witness: Some(w) }; }
+    }
+    // the record iterator driven through skip / nth / step_by: ordinals stay the positions in the file
+    {
+        let recs: Vec<(String, Vec<u8>)> = (0..9).map(|i| (format!("r{}", i), (0..10 + i).map(|j| b"ACGT"[(i + j) % 4]).collect())).collect();
+        let sc = Scratch::new("reader");
+        let path = sc.path("skip.fa");
+        std::fs::write(&path, fasta_bytes(&recs, 0, false)).unwrap();
+        cases += 1;
+        let p = path.clone();
+        let got = guarded(move || {
+            let open = || { let f = ktio::seq::SeqFormat::get(&p).unwrap(); ktio::seq::Sequences::new(f, ktio::seq::get_reader(&p).unwrap()).unwrap() };
+            let a: Vec<(usize, String)> = open().skip(3).map(|r| (r.n, r.id)).collect();
+            let b: Vec<(usize, String)> = open().step_by(2).map(|r| (r.n, r.id)).collect();
+            let mut it = open();
+            let c = it.nth(4).map(|r| (r.n, r.id));
+            let d = it.next().map(|r| (r.n, r.id));
+            (a, b, c, d)
+        });
+        let want_all: Vec<(usize, String)> = (0..9).map(|i| (i, format!("r{}", i))).collect();
+        let bad = match &got {
+            Err(_) => true,
+            Ok((a, b, c, d)) => *a != want_all[3..].to_vec() || *b != want_all.iter().step_by(2).cloned().collect::<Vec<_>>() || *c != Some(want_all[4].clone()) || *d != Some(want_all[5].clone()),
+        };
+        if bad { return Outcome { cases, witness: Some(vec![("container".into(), "fa, iterator driven through skip(3) / step_by(2) / nth(4)".into()), ("records".into(), recs.iter().map(|r| show(&r.1)).collect::<Vec<_>>().join("|")), ("why".into(), format!("ordinals or ids differ from the positions in the file: {:?}", got))]) }; }
+    }
     // FASTQ records whose quality line starts with each of the characters that start other kinds of lines
     {
         let recs: Vec<(String, Vec<u8>)> = (0..14).map(|i| (format!("q{}", i), (0..20 + i).map(|j| b"ACGT"[(i + j) % 4]).collect())).collect();
